@@ -227,6 +227,11 @@ def run(ctx):
     # (seeds c12-e: push_components dropped placeholders, c12-f: set_atom_name trimmed underscores)
     import c17 as _c17
     _c17.rule_K_MUTATOR(ctx)
+    # the enum parser's productions: which keyword is tested / skipped / handed to which sub-parser, which slot is filled (P-SKELETON), in terms of
+    # cursor primitives with exactly their reviewed meaning (P-PRIM)
+    import pskel as _pskel
+    _pskel.rule_P_PRIM(ctx)
+    _pskel.rule_P_SKELETON(ctx)
     ctx.undecided = ["identifier well-formedness of parsed names beyond non-emptiness (value-dependent)",
                      "formatting totality relies on the reviewed table for its index sites and on std formatting being total"]
     ctx.assumptions = ["axioms of C04 (usize +, finite iterators, unlisted external callees total)"]
